@@ -37,6 +37,8 @@ class Ctx:
         self.feas_cache = {}
 
     def oblige(self, state, kind, line, goal, detail=''):
+        if getattr(self, 'muted', False):
+            return
         if isinstance(goal, bool):
             if goal:
                 return
@@ -54,6 +56,7 @@ class State:
         self.pc = []
         self.mark = ctx.mark0
         self.old = {}            # snapshots of parameters at entry
+        self.decisions = {}      # resolved data-dependent result kinds of contract calls (see ForkRequest)
 
     def clone(self):
         memo = {}
@@ -61,6 +64,7 @@ class State:
         s.pc = list(self.pc)
         s.mark = self.mark
         s.old = self.old
+        s.decisions = dict(self.decisions)
         s.env = {k: _clone(v, memo) for k, v in self.env.items()}
         return s
 
@@ -117,6 +121,22 @@ def FA(lo, hi, body, name='j'):
     if isinstance(b, bool):
         b = z3.BoolVal(b)
     return z3.ForAll([j], z3.Implies(z3.And(zi(lo) <= j, j < zi(hi)), b))
+
+
+class ForkRequest(Exception):
+    """a contract call whose *kind* of result depends on a symbolic condition (TT @ TT: scalar iff all dims are 1)"""
+
+    def __init__(self, key, cond):
+        self.key, self.cond = key, cond
+
+
+def _may_fork(node):
+    for n in ast.walk(node):
+        if isinstance(n, ast.BinOp) and isinstance(n.op, ast.MatMult):
+            return True
+        if isinstance(n, ast.Call) and isinstance(n.func, ast.Attribute) and n.func.attr in ('dot', '__matmul__'):
+            return True
+    return False
 
 
 class Outcome:
@@ -196,7 +216,21 @@ class Executor:
         m = getattr(self, 'st_' + type(node).__name__, None)
         if m is None:
             raise Unsupported('statement %s at line %d' % (type(node).__name__, node.lineno))
-        return m(node, state)
+        simple = isinstance(node, (ast.Assign, ast.AugAssign, ast.Expr, ast.Return))
+        pre = state.clone() if (simple and _may_fork(node)) else None
+        try:
+            return m(node, state)
+        except ForkRequest as fr:
+            if pre is None:
+                raise Unsupported('result type of a call depends on data inside a compound statement (line %d)' % node.lineno)
+            outs = []
+            st, sf = self.branch(pre, fr.cond)
+            for s2, val in ((st, True), (sf, False)):
+                if s2 is not None:
+                    s2.decisions = dict(s2.decisions)
+                    s2.decisions[fr.key] = val
+                    outs += self.exec_stmt(node, s2)
+            return outs
 
     def st_Pass(self, node, state):
         return [Outcome('normal', state)]
@@ -235,6 +269,8 @@ class Executor:
         outs = []
         for s, v in self.eval_forks(node.value, state):
             for tgt in node.targets:
+                if isinstance(v, SList) and v.items == [] and isinstance(tgt, ast.Name):
+                    v.kind = getattr(self.ctx.contract, 'list_kinds', {}).get(tgt.id, v.kind)
                 self.assign(tgt, v, s, node)
             outs.append(Outcome('normal', s))
         return outs
@@ -406,6 +442,16 @@ class Executor:
             if isinstance(n, ast.Call) and isinstance(n.func, ast.Attribute) and n.func.attr in ('append', 'extend', 'insert', 'reverse', 'pop'):
                 objs.append((n.func.value, n.func.attr != 'reverse'))
         done = set()
+        self.ctx.muted = True       # the scan only identifies the mutated objects; it generates no obligations
+        try:
+            self._havoc_objs(objs, state, done)
+        finally:
+            self.ctx.muted = False
+        for nm in names:
+            if nm in state.env:
+                state.env[nm] = self.havoc_value(state.env[nm], state, nm)
+
+    def _havoc_objs(self, objs, state, done):
         for expr, grows in objs:
             if grows == 'attr':
                 try:
@@ -420,12 +466,15 @@ class Executor:
                 obj = self.ev(expr, state)
             except Exception:
                 continue
-            if isinstance(obj, SList) and id(obj) not in done:
-                done.add(id(obj))
-                self.havoc_list(obj, state, grows)
-        for nm in names:
-            if nm in state.env:
-                state.env[nm] = self.havoc_value(state.env[nm], state, nm)
+            if isinstance(obj, SList):
+                if id(obj) not in done:
+                    done.add(id(obj))
+                    self.havoc_list(obj, state, grows)
+                elif grows and not getattr(obj, '_grown', False):
+                    obj.length = fresh('len')
+                    state.assume(zi(obj.length) >= 0)
+                if grows:
+                    obj._grown = True
 
     def havoc_list(self, lst, state, grows):
         kind = lst.kind
@@ -661,8 +710,11 @@ class Executor:
         if isinstance(base, tuple) and base and base[0] == 'shape-of':
             arr = base[1]
             c = as_conc(idx)
-            if c is None or c < 0 or c >= len(arr.shape):
+            if c is None or c >= len(arr.shape) or c < -len(arr.shape):
                 raise Unsupported('shape index at line %d' % line)
+            if c < 0:
+                self.ctx.oblige(state, 'array-rank', line, zi(arr.ndim) == len(arr.shape), 'shape[%d] needs a known rank' % c)
+                return arr.shape[c]
             self.ctx.oblige(state, 'index-in-range', line, c < zi(arr.ndim), 'shape[%d] of an array of unknown rank' % c)
             return arr.shape[c]
         if isinstance(base, tuple):
@@ -890,6 +942,8 @@ class Executor:
             if isinstance(op, ast.MatMult):
                 return npmodel.matmul(self, state, a, b, line)
             return npmodel.elementwise(self, state, [a, b], line)
+        if isinstance(a, STT) or isinstance(b, STT):
+            return self.tt_binop(op, a, b, state, line)
         if isinstance(a, (SNum, SInf)) or isinstance(b, (SNum, SInf)):
             cx = z3.Or(a.cplx if isinstance(a, SNum) else z3.BoolVal(False), b.cplx if isinstance(b, SNum) else z3.BoolVal(False))
             return SNum('arith', cplx=cx)
@@ -911,7 +965,13 @@ class Executor:
 
     def list_repeat(self, lst, n, state, line):
         if lst.items is None or len(lst.items) != 1:
-            raise Unsupported('list repetition of a non-singleton at line %d' % line)
+            src = lst.snapshot()
+            if src.items is not None and not src.items:
+                return SList(state.alloc(), None, items=[])
+            src.to_fn()
+            f, L = src.fn, zi(src.length)
+            nn = z3.If(zi(n) > 0, zi(n), z3.IntVal(0))
+            return SList(state.alloc(), z3.simplify(L * nn), fn=lambda j, f=f, L=L: f(j % z3.If(L > 0, L, z3.IntVal(1))), kind=lst.kind)
         x = lst.items[0]
         c = as_conc(n)
         if c is not None and c <= 16:
